@@ -79,14 +79,25 @@ func constBoolReturn(b *ssa.BasicBlock) (val bool, ok bool) {
 	return k.Value.ExactString() == "true", true
 }
 
-// ifOn finds the If instruction(s) branching on exactly value v.
-func ifsOn(fn *ssa.Function, v ssa.Value) []*ssa.If {
-	var out []*ssa.If
+// branch is an If that branches on exactly one boolean value; T / F are the successors taken when
+// that value is true / false (negations in the condition are resolved).
+type branch struct {
+	If   *ssa.If
+	T, F *ssa.BasicBlock
+}
+
+// ifsOn finds the branches on exactly value v.
+func ifsOn(fn *ssa.Function, v ssa.Value) []branch {
+	var out []branch
 	for _, b := range fn.Blocks {
 		if ifi, ok := b.Instrs[len(b.Instrs)-1].(*ssa.If); ok {
 			l := litOf(ifi.Cond, true)
 			if l.Op == token.ILLEGAL && l.X == v {
-				out = append(out, ifi)
+				if l.Neg {
+					out = append(out, branch{ifi, b.Succs[1], b.Succs[0]})
+				} else {
+					out = append(out, branch{ifi, b.Succs[0], b.Succs[1]})
+				}
 			}
 		}
 	}
@@ -252,7 +263,7 @@ func checkC23(c *Ctx, r *Report) {
 					continue
 				}
 				for _, ifi := range ifs {
-					tgt := followJumps(ifi.Block().Succs[0])
+					tgt := followJumps(ifi.T)
 					if v, ok := constBoolReturn(tgt); ok && !v {
 						r.ok("C23.R1", key, m.Pos(t.call.Pos()), "")
 					} else {
@@ -264,7 +275,7 @@ func checkC23(c *Ctx, r *Report) {
 				key := fmt.Sprintf("%s: allow test (%s) only after the deny rules are exhausted", sp.label, calleeShort(t.call))
 				guardVerdict(m, r, "C23.R1", key, fn, t.call, Guard{cl(denyExhausted())})
 				for _, ifi := range ifs {
-					trueEdgeTo[ifi.Block().Succs[0]] = "allow"
+					trueEdgeTo[ifi.T] = "allow"
 				}
 			}
 		}
@@ -352,7 +363,7 @@ func checkC23(c *Ctx, r *Report) {
 								continue
 							}
 							for _, ifi := range ifsOn(fn, t.call) {
-								if followJumps(ifi.Block().Succs[0]) == b {
+								if followJumps(ifi.T) == b {
 									underDeny = true
 								}
 							}
